@@ -261,6 +261,34 @@ func npmName(t *rapid.T) string {
 	return base
 }
 
+// npmLocalDir draws the project directory of a local package: a folder named after the
+// package (for a scoped package that includes its @scope folder, and npm then needs no "name"
+// in the lockfile), a folder whose derived name differs from the package name (a scope-like
+// parent folder that is not part of the name, a scoped package in a plain folder, an
+// unrelated folder name), below the project root or next to it.
+func npmLocalDir(t *rapid.T, name string) string {
+	scope, base := "", name
+	if strings.HasPrefix(name, "@") {
+		if sc, b, ok := strings.Cut(name, "/"); ok {
+			scope, base = sc, b
+		}
+	}
+	prefix := pickS(t, "dirprefix", "packages/", "packages/", "", "libs/js/", "../shared/", "tools/")
+	switch pickInt(t, "dirkind", 0, 0, 0, 1, 1, 2) {
+	case 1:
+		if scope == "" {
+			return prefix + "@" + pickS(t, "dirgrp", "acme", "internal", "x") + "/" + safeWord(base)
+		}
+		return prefix + safeWord(base)
+	case 2:
+		return prefix + safeWord(base) + pickS(t, "dirsuf", "-dir", "-pkg", "_src")
+	}
+	if scope != "" {
+		return prefix + "@" + safeWord(scope) + "/" + safeWord(base)
+	}
+	return prefix + safeWord(base)
+}
+
 func composerName(t *rapid.T) string {
 	if coin(t, "pool", 3) {
 		return pickS(t, "cpool", "sentry/sdk", "symfony/polyfill-php80", "psr/log", "guzzlehttp/guzzle", "league/flysystem-aws-s3-v3", "phpunit/php-code-coverage", "a/b", "doctrine/dbal", "wikimedia/composer-merge-plugin", "vendor_x/pkg.name")
@@ -518,6 +546,19 @@ func DrawRecords(t *rapid.T, format string, min, max int) []Record {
 					al, ok2 := uniq(func() string { return npmName(t) + "-cjs" })
 					if ok2 {
 						setAttr(&r, "alias", al)
+					}
+				}
+				if ok && coin(t, "localdir", 5) {
+					// a workspace member or file: dependency, keyed by its directory in v2/v3 files
+					if d := npmLocalDir(t, r.Name); !used["dir:"+d] {
+						used["dir:"+d] = true
+						setAttr(&r, "dir", d)
+						if coin(t, "explicit_name", 3) {
+							setAttr(&r, "explicit_name", "1")
+						}
+						if !coin(t, "nolink", 3) {
+							setAttr(&r, "link", "1")
+						}
 					}
 				}
 			}
